@@ -457,6 +457,15 @@ func ClassifyMail(arg string, ext Ext) (Class, MailExp) {
 			if !strings.Contains(v, "@") {
 				return Invalid, MailExp{Why: "AUTH value is not a mailbox"}
 			}
+			if !strings.HasPrefix(v, "<") && mb.class == Valid && mb.rest != "" && strings.ContainsRune(">,;<()\\\" ", rune(mb.rest[0])) {
+				// a complete mailbox followed by a character that no mailbox can continue with
+				return Invalid, MailExp{Why: "AUTH value is a mailbox followed by something else"}
+			}
+			if !strings.HasPrefix(v, "<") && !strings.Contains(v, "\"") && strings.HasSuffix(v, ">") {
+				// a closing angle bracket that nothing opened: no domain and no address literal ends in '>'. (Other
+				// odd characters in the domain are left unjudged, as they are for the path itself.)
+				return Invalid, MailExp{Why: "AUTH value ends in an unmatched '>'"}
+			}
 			if strings.HasPrefix(v, "<") || mb.class != Valid || mb.rest != "" {
 				weaken("AUTH mailbox in unusual form")
 			}
@@ -563,7 +572,7 @@ func ClassifyRcpt(arg string, ext Ext) (Class, RcptExp) {
 				v, ok := DecodeUTF8AddrRef(tv[1])
 				if !ok || v == "" {
 					if utf8AddrClearlyInvalid(tv[1]) {
-						return Invalid, RcptExp{Why: "embedded code point that is no Unicode scalar value (zero, surrogate, beyond U+10FFFF)"}
+						return Invalid, RcptExp{Why: "utf-8 address that RFC 6533 section 3 excludes: a bare '+', '=' or backslash, or an embedded code point that is no minimal HEXPOINT of a Unicode scalar value"}
 					}
 					weaken("utf-8 address form not decodable by the reference")
 					break
@@ -605,9 +614,16 @@ func ClassifyRcpt(arg string, ext Ext) (Class, RcptExp) {
 }
 
 // utf8AddrClearlyInvalid: v contains an embedded "\x{HEX}" (upper-case hex digits) whose value no HEXPOINT form of
-// RFC 6533 section 3 can denote: zero, a surrogate, or beyond U+10FFFF. (Other undecodable forms - lower-case hex,
-// leading zeros, an encoded printable character - are left unjudged.)
+// RFC 6533 section 3 can denote: zero, a surrogate, beyond U+10FFFF, a single digit, leading zeros in front of more
+// than two digits (the 3..6-digit forms begin with a non-zero digit), or a two-digit form of a printable character
+// that stands for itself. (Lower-case hex digits are judged elsewhere; 0A-0F and 1A-1F are left unjudged.)
 func utf8AddrClearlyInvalid(v string) bool {
+	// '+' and '=' never stand for themselves (QCHAR excludes them), a backslash only begins "\x{"
+	for i := 0; i < len(v); i++ {
+		if v[i] == '+' || v[i] == '=' || (v[i] == '\\' && !strings.HasPrefix(v[i:], `\x{`)) {
+			return true
+		}
+	}
 	for i := 0; i+3 < len(v); i++ {
 		if !strings.HasPrefix(v[i:], `\x{`) {
 			continue
@@ -623,6 +639,14 @@ func utf8AddrClearlyInvalid(v string) bool {
 		sig := strings.TrimLeft(hex, "0")
 		if sig == "" {
 			return true // zero
+		}
+		if len(hex) == 1 || (len(hex) > 2 && hex[0] == '0') {
+			return true // HEXPOINT forms are minimal: at least two digits, no leading zero beyond that (NZHEXDIG)
+		}
+		if len(hex) == 2 {
+			if n, _ := strconv.ParseUint(hex, 16, 32); n >= 0x21 && n <= 0x7e && n != 0x5c && n != 0x2b && n != 0x3d {
+				return true // a printable character that stands for itself has no HEXPOINT form
+			}
 		}
 		if len(sig) > 6 {
 			return true
